@@ -19,12 +19,14 @@ def main():
     name = None
     tiers = ['quick', 'thorough']
     note = None
+    check_id = None
     args = sys.argv[3:]
     while args:
         a = args.pop(0)
         if a == '--keep-as': name = args.pop(0)
         elif a == '--tiers': tiers = args.pop(0).split(',')
         elif a == '--note': note = args.pop(0)
+        elif a == '--check-id': check_id = args.pop(0)
     name = name or f"{pid}-{os.path.basename(sdir)}"
     demo_txt = open(f"{sdir}/demo.txt").read()
     m = re.search(r'([\w\-]+/tests/[\w\-]+\.rs)', demo_txt)
@@ -75,9 +77,10 @@ def main():
         else:
             for tier in tiers:
                 t0 = time.time()
-                rc, out = sh(f"bin/check {pid} --tier {tier}", cwd='/verif')
+                cid = check_id or pid
+                rc, out = sh(f"bin/check {cid} --tier {tier}", cwd='/verif')
                 lines = [l for l in out.splitlines() if l.startswith(('VIOLATION', '  cause', 'KNOWN', 'OK', 'FAILED', 'MACHINERY'))]
-                meta['ran'].append({'cmd': f'bin/check {pid} --tier {tier} (patch applied to /repo)', 'exit': rc, 'wall_s': round(time.time() - t0, 1), 'output': lines[:8]})
+                meta['ran'].append({'cmd': f'bin/check {cid} --tier {tier} (patch applied to /repo)', 'exit': rc, 'wall_s': round(time.time() - t0, 1), 'output': lines[:8]})
                 print(f"check {tier}: exit {rc}")
                 for l in lines[:6]: print("   ", l[:220])
                 if rc == 1:
@@ -86,6 +89,8 @@ def main():
     finally:
         sh("git checkout -- . && git clean -fdq -e target", cwd='/repo')
     meta['detected_by'] = detected_by
+    if check_id and check_id != pid:
+        meta['detected_by_check_of'] = check_id
     notes = open(f"{sdir}/notes.md").read() if os.path.exists(f"{sdir}/notes.md") else ''
     m = re.search(r'(?is)(needs|what it takes|trigger|manifest)[^\n]*\n?(.{0,600})', notes)
     meta['needs_to_manifest'] = (m.group(0)[:700] if m else notes[:700])
